@@ -112,7 +112,7 @@ Definition header_parse (p : bytes) : option (pheader * bytes) :=
     else if llen >? 0 then
       let '(l, r) := old_len llen rest in
       Some ({| h_lenfmt := 0; h_tag := tag; h_llen := llen; h_len := l |}, r)
-    else Some ({| h_lenfmt := 0; h_tag := tag; h_llen := 0; h_len := Z.of_nat (length rest) |}, rest)
+    else Some ({| h_lenfmt := 0; h_tag := tag; h_llen := 1 (* indeterminate length: kept with a one-octet length field from now on, repair of Header.parse *); h_len := Z.of_nat (length rest) |}, rest)
   end.
 
 (* Header.__bytearray__: tag octet then encode_length(length, lenfmt, llen) *)
